@@ -11,7 +11,10 @@ META = {
             "be identical to the plain call (reduce_data=False, segments=1, nprocs=1); neighbour info computed once is reused "
             "on several datasets and compared with one-shot calls; the reduction window of data_reduce is decided per pair by "
             "brute force (is every valid source within the radius of a valid target kept?). Geometry pairs incl. targets at "
-            "high latitude, off the central meridian, across the dateline, over a pole, flipped grids. Non-trivial: reduce_data "
+            "high latitude, off the central meridian, across the dateline, over a pole, flipped grids; targets with >= 200 rows / columns "
+            "(source clusters at corners, side midpoints, centre, outside); geostationary area sources (sectors on the disk, over the limb, full disk) "
+            "sampled at a swath; get_neighbour_info(reduce_data=True, segments) + get_sample_from_neighbour_info. A reduction that drops a needed location "
+            "is the known finding F7 only while the mask the library applies equals the frozen F7 window on the harness's own outline. Non-trivial: reduce_data "
             "drops >= 1 source, or segments >= 2, or nprocs >= 2. Distinct = distinct canonical input.",
     "assumptions": ["pairs with exact distance ties (two sources within 1e-9 relative for one target) are skipped: pykdtree (nprocs=1) and "
                     "scipy cKDTree (nprocs>1) break ties differently", "OS scheduling of worker processes is sampled"],
@@ -31,6 +34,47 @@ def _ties(d, radius, k):
         tie = (gaps & fin[:, 1:] & (srt[:, :-1] <= radius * (1 + 1e-9))).any()
         thr = (np.abs(srt - radius) <= 1e-9 * max(radius, 1.0)).any()
     return bool(tie or thr)
+
+
+def _brute_force_scan(slo, sla, tlo, tla, radius, k):
+    """all source x target chord distances
+    -> (some target has a distance tie / a neighbour at the radius threshold, valid sources within the radius of a valid target,
+        valid targets with a valid source within the radius, valid sources, valid targets).
+    Small pairs: one distance matrix.  Big pairs: targets that are farther than the radius from every source are set aside first by the triangle
+    inequality (bounding spheres of the sources falling in one cell of a coarse cartesian grid; such a target has no neighbour, no tie and
+    nothing at the threshold), the remaining targets are taken in blocks."""
+    n_src, n_tgt = slo.size, tlo.size
+    sv = kc.valid(slo, sla)
+    tv = kc.valid(tlo, tla)
+    if n_src * n_tgt <= 4_000_000:
+        d, _, _ = kc.dist_matrix(slo, sla, tlo, tla)
+        within = d <= radius
+        return _ties(d, radius, k), within.any(axis=0) & sv, within.any(axis=1) & tv, sv, tv
+    S = kc.xyz(slo[sv], sla[sv])
+    T = kc.xyz(np.where(tv, tlo, 0.0), np.where(tv, tla, 0.0))
+    near = np.zeros(n_tgt, dtype=bool)
+    if S.shape[0]:
+        cell = max(4.0 * radius, float((S.max(axis=0) - S.min(axis=0)).max()) / 12.0, 1.0)
+        _, group = np.unique(np.floor(S / cell).astype(np.int64), axis=0, return_inverse=True)
+        group = np.asarray(group).ravel()
+        for g in range(int(group.max()) + 1):
+            P = S[group == g]
+            c = P.mean(axis=0)
+            rho = float(np.sqrt(((P - c) ** 2).sum(axis=1)).max())
+            near |= ((T - c) ** 2).sum(axis=1) <= (rho + radius * (1 + 1e-6) + 1.0) ** 2
+    idx = np.flatnonzero(near & tv)
+    tie = False
+    needed_src = np.zeros(n_src, dtype=bool)
+    needed_tgt = np.zeros(n_tgt, dtype=bool)
+    block = max(1, 2_000_000 // max(n_src, 1))
+    for i in range(0, idx.size, block):
+        sel = idx[i:i + block]
+        d, _, _ = kc.dist_matrix(slo, sla, tlo[sel], tla[sel])
+        tie = tie or _ties(d, radius, k)
+        within = d <= radius
+        needed_src |= within.any(axis=0)
+        needed_tgt[sel] = within.any(axis=1)
+    return tie, needed_src & sv, needed_tgt & tv, sv, tv
 
 
 def _same(a, b):
@@ -83,6 +127,120 @@ def _special_pairs(ctx):
     return out
 
 
+def _own_transformer(area):
+    """harness-side projection of an area's CRS (lon/lat on the CRS's own datum), independent of the library's lon/lat accessors"""
+    import pyproj
+    crs = pyproj.CRS.from_user_input(area.crs)
+    return pyproj.Transformer.from_crs(crs.geodetic_crs, crs, always_xy=True)
+
+
+def _big_target_pairs(ctx):
+    """targets with >= 200 rows or columns (the other pairs stop at 64 / 200 elements): long outlines, many row segments.  The target lies off the
+    central meridian of its projection (either hemisphere, either side), so its sides are slanted against the meridians and the extremes of the
+    outline sit in its corners.  Source: a swath of small jittered lattices (resolution similar to the target's) around the places where an outline
+    matters - the four corners, the four side midpoints, the centre - plus one cluster well outside the target that a sound reduction may drop.
+    The brute-force oracle runs over all source x target distances in blocks."""
+    import pyproj
+    from pyresample.geometry import SwathDefinition
+    r = ctx.rng
+    out = []
+    for it in range(14 if ctx.quick else 24):
+        long_ = r.randrange(200, 330 if ctx.quick else 520)
+        other = r.randrange(long_ // 2, long_)
+        h, w = (long_, other) if r.random() < 0.75 else (other, long_)
+        hemi = r.choice([1, -1])
+        lon_0 = r.choice([0.0, -60.0, 100.0, 170.0])
+        latc = hemi * r.uniform(20.0, 78.0)
+        lonc = lon_0 + r.choice([1, -1]) * r.uniform(12.0, 45.0)
+        pname = r.choice(["stere", "laea", "lcc"])
+        if pname == "stere":
+            proj = {"proj": "stere", "lat_0": 90.0 * hemi, "lat_ts": 60.0 * hemi, "lon_0": lon_0, "ellps": "WGS84"}
+        elif pname == "laea":
+            proj = {"proj": "laea", "lat_0": hemi * r.choice([90.0, 60.0, 45.0]), "lon_0": lon_0, "ellps": "WGS84"}
+        else:
+            proj = {"proj": "lcc", "lat_1": 30.0 * hemi, "lat_2": 60.0 * hemi, "lat_0": 45.0 * hemi, "lon_0": lon_0, "ellps": "WGS84"}
+        pix = r.choice([1000.0, 2500.0, 4000.0])
+        xc, yc = pyproj.Proj(proj)((lonc + 180) % 360 - 180, latc)
+        ext = (xc - w * pix / 2, yc - h * pix / 2, xc + w * pix / 2, yc + h * pix / 2)
+        tgt = kc.mk_area(proj, w, h, ext)
+        sp = pix * r.choice([0.6, 0.9, 1.3])
+        n = 6
+        far_side = r.randrange(4)
+        anchors = [(fx, fy) for fy in (0.0, 0.5, 1.0) for fx in (0.0, 0.5, 1.0)] + \
+            [[(-0.5, r.random()), (1.5, r.random()), (r.random(), -0.5), (r.random(), 1.5)][far_side]]
+        px, py = [], []
+        jit = np.random.default_rng(r.getrandbits(32)).uniform(-0.2, 0.2, size=(2, len(anchors) * n, n))
+        for fx, fy in anchors:      # fractions of the extent, (0, 0) = upper left corner
+            ax, ay = ext[0] + fx * (ext[2] - ext[0]), ext[3] - fy * (ext[3] - ext[1])
+            for q in range(n):
+                px.append([ax + (c - (n - 1) / 2) * sp for c in range(n)])
+                py.append([ay - (q - (n - 1) / 2) * sp for c in range(n)])
+        lon, lat = _own_transformer(tgt).transform(np.array(px) + jit[0] * sp, np.array(py) + jit[1] * sp, direction="INVERSE")
+        if not (np.isfinite(lon).all() and np.isfinite(lat).all()):
+            continue
+        radius = sp * r.choice([1.0, 1.5, 2.5])
+        desc = (f"big target {it}: swath[{lon.shape[0]}x{lon.shape[1]}] = {len(anchors)} lattices of {sp:.0f} m at the corners / side midpoints / centre / outside -> "
+                f"{pname} {h}x{w} of {pix:.0f} m pixels centred at ({lonc:.1f}E,{latc:.1f}N), lon_0={lon_0}, r={radius:.0f}")
+        out.append((SwathDefinition(lon, lat), tgt, radius, desc, sorted({1, r.randrange(2, 12)}) if ctx.quick else sorted({1, 3, r.randrange(2, 12), r.randrange(12, 40)})))
+    return out
+
+
+def _geos_source_pairs(ctx):
+    """grid -> swath with a geostationary source: image sectors on the Earth disk (north or south of the sub-satellite point or across the equator, straddling
+    the sub-satellite meridian or beside it, wide-and-flat or tall), sectors that stick out over the limb, and a coarse full disk.  The output
+    reduction works with the source's outline, and rows / columns of constant y / x of this projection are curves in lon/lat.  Targets: a
+    swath of positions scattered over the source's footprint (jittered pixel centres of randomly drawn source pixels, a few thrown further out)"""
+    from pyresample.geometry import SwathDefinition
+    r = ctx.rng
+    out = []
+    for it in range(8 if ctx.quick else 40):
+        lon_0 = r.choice([0.0, -75.2, 140.7, 9.5])
+        proj = {"proj": "geos", "lon_0": lon_0, "h": 35785831.0, "a": 6378169.0, "b": 6356583.8}
+        kind = r.choice(["wide", "wide", "wide", "tall", "tall", "over_limb", "full_disk"])
+        pix = r.choice([20000.0, 25000.0, 30000.0])
+        if kind == "wide":
+            w, h = r.randrange(150, 300), r.randrange(4, 12)
+            xc = r.uniform(-6.0e5, 6.0e5)
+            y0 = r.choice([1, -1]) * r.uniform(0.0, 3.2e6)
+        elif kind == "tall":
+            w, h = r.randrange(4, 12), r.randrange(150, 300)
+            xc = r.choice([1, -1]) * r.uniform(0.0, 3.2e6)
+            y0 = r.uniform(-6.0e5, 6.0e5)
+        elif kind == "over_limb":
+            w, h = r.randrange(60, 120), r.randrange(6, 14)
+            xc = r.choice([1, -1]) * (5.4e6 - w * pix / 4)
+            y0 = r.uniform(-2.0e6, 2.0e6)
+        else:
+            w = h = r.randrange(40, 60)
+            pix = 1.1e7 / w
+            xc = y0 = 0.0
+        if kind == "wide":
+            ext = (xc - w * pix / 2, min(y0, y0 + np.sign(y0 or 1) * h * pix), xc + w * pix / 2, max(y0, y0 + np.sign(y0 or 1) * h * pix))
+        elif kind == "tall":
+            ext = (min(xc, xc + np.sign(xc or 1) * w * pix), y0 - h * pix / 2, max(xc, xc + np.sign(xc or 1) * w * pix), y0 + h * pix / 2)
+        else:
+            ext = (xc - w * pix / 2, y0 - h * pix / 2, xc + w * pix / 2, y0 + h * pix / 2)
+        src = kc.mk_area(proj, w, h, tuple(float(v) for v in ext))
+        tr = _own_transformer(src)
+        t_rows, t_cols = r.randrange(6, 14), r.randrange(12, 24)
+        xs, ys = [], []
+        while len(xs) < t_rows * t_cols:
+            c, q = r.randrange(w), r.randrange(h)
+            j = 3.0 if r.random() < 0.15 else 0.45
+            x = ext[0] + (c + 0.5 + r.uniform(-j, j)) * pix
+            y = ext[3] - (q + 0.5 + r.uniform(-j, j)) * pix
+            lo, la = tr.transform(x, y, direction="INVERSE")
+            if np.isfinite(lo) and np.isfinite(la):
+                xs.append(lo)
+                ys.append(la)
+        lon = np.array(xs).reshape(t_rows, t_cols)
+        lat = np.array(ys).reshape(t_rows, t_cols)
+        radius = pix * r.choice([0.8, 1.2, 2.0])
+        desc = f"geos source {it}: {kind} sector {h}x{w} of {pix:.0f} m pixels, lon_0={lon_0} -> swath[{t_rows}x{t_cols}] over its footprint, r={radius:.0f}"
+        out.append((src, SwathDefinition(lon, lat), radius, desc))
+    return out
+
+
 def _f7_reference_window(b_lons, b_lats, lons, lats, radius):
     """FROZEN copy of data_reduce._get_valid_index as it stands with known finding F7 (sin-for-cos longitude buffer, longitude
     extent from sides 2 and 4 only).  It pins the finding: a window that drops a needed location is the KNOWN finding only if
@@ -123,10 +281,44 @@ def _f7_reference_window(b_lons, b_lats, lons, lats, radius):
     return np.ones(lons.size, dtype=bool)
 
 
-def _window_diagnosis(src, tgt, radius, d, sv, tv):
+class _Sides:
+    def __init__(self, s1, s2, s3, s4):
+        self.side1, self.side2, self.side3, self.side4 = s1, s2, s3, s4
+
+
+def _outline(geo):
+    """the outline finding F7 is stated on, taken by the harness itself from the geometry's full lon/lat arrays: all pixel centres of the first
+    row (left to right), last column (top to bottom), last row (right to left) and first column (bottom to top)"""
+    lo, la = kc.lonlats(geo)
+    return tuple(_Sides(a[0, :].ravel(), a[:, -1].ravel(), a[-1, ::-1].ravel(), a[::-1, 0].ravel()) for a in (lo, la))
+
+
+def _library_masks(src, tgt, radius, slo, sla, tlo, tla):
+    """the reduction the resampling calls really apply (kd_tree's own helpers); None where they cannot be asked"""
+    from pyresample import kd_tree
+    act_src = act_tgt = None
+    try:
+        act_src = np.asarray(kd_tree._get_valid_input_index(src, tgt, True, radius)[0]).astype(bool).ravel()
+        if act_src.size != slo.size:
+            act_src = None
+    except Exception:  # noqa
+        act_src = None
+    try:
+        act_tgt = np.asarray(kd_tree._get_valid_output_index(src, tgt, tlo.ravel(), tla.ravel(), True, radius)).astype(bool).ravel()
+        if act_tgt.size != tlo.size:
+            act_tgt = None
+    except Exception:  # noqa
+        act_tgt = None
+    return act_src, act_tgt
+
+
+def _window_diagnosis(src, tgt, radius, needed_src, needed_tgt, sv, tv):
     """is data_reduce's window sound for this pair? both reductions are examined:
     sources against the target's boundary (target griddish) and targets against the source's boundary
-    (source griddish, target a coordinate definition).  returns (sound, cause, n_dropped_needed, keep_src, side)"""
+    (source griddish, target a coordinate definition).  returns (sound, cause, n_dropped_needed, keep_src, side).
+    A location counts as dropped if the window function drops it for the library's own boundary OR the mask the resampling calls apply
+    (kd_tree._get_valid_input_index / _get_valid_output_index) drops it.  The drop is the KNOWN finding F7 only if both of these equal the frozen F7
+    window evaluated on the outline the harness takes itself from the geometry's full lon/lat arrays (every pixel centre of the four sides)."""
     from pyresample import data_reduce, geometry
     griddish = (geometry.GridDefinition, geometry.AreaDefinition)
     slo, sla = kc.lonlats(src)
@@ -136,18 +328,23 @@ def _window_diagnosis(src, tgt, radius, d, sv, tv):
     keep_src = None
     with warnings.catch_warnings():
         warnings.simplefilter("ignore")
+        act_src, act_tgt = _library_masks(src, tgt, radius, slo, sla, tlo, tla)
         if isinstance(tgt, griddish):
             b = tgt.get_boundary_lonlats()
+            own = _outline(tgt)
             keep_src = np.asarray(data_reduce.get_valid_index_from_lonlat_boundaries(b[0], b[1], slo.ravel(), sla.ravel(), radius)).astype(bool)
-            needed = (d <= radius).any(axis=0) & sv            # sources within r of some valid target
-            ref = _f7_reference_window(b[0], b[1], slo.ravel(), sla.ravel(), radius)
-            results.append(("source", b, sla.ravel(), needed & ~keep_src, bool(np.array_equal(np.asarray(ref, bool)[sv], keep_src[sv]))))
+            needed = needed_src                                # valid sources within r of some valid target
+            ref = np.asarray(_f7_reference_window(own[0], own[1], slo.ravel(), sla.ravel(), radius), bool)
+            applied = keep_src if act_src is None else (keep_src & act_src)
+            results.append(("source", own, sla.ravel(), needed & ~applied, bool(np.array_equal(ref[sv], keep_src[sv]) and np.array_equal(ref[sv], applied[sv]))))
         if isinstance(src, griddish) and isinstance(tgt, geometry.CoordinateDefinition):
             b = src.get_boundary_lonlats()
+            own = _outline(src)
             keep_t = np.asarray(data_reduce.get_valid_index_from_lonlat_boundaries(b[0], b[1], tlo.ravel(), tla.ravel(), radius)).astype(bool)
-            needed = (d <= radius).any(axis=1) & tv            # targets that have a valid source within r
-            ref = _f7_reference_window(b[0], b[1], tlo.ravel(), tla.ravel(), radius)
-            results.append(("target", b, tla.ravel(), needed & ~keep_t, bool(np.array_equal(np.asarray(ref, bool)[tv], keep_t[tv]))))
+            needed = needed_tgt                                # valid targets that have a valid source within r
+            ref = np.asarray(_f7_reference_window(own[0], own[1], tlo.ravel(), tla.ravel(), radius), bool)
+            applied = keep_t if act_tgt is None else (keep_t & act_tgt)
+            results.append(("target", own, tla.ravel(), needed & ~applied, bool(np.array_equal(ref[tv], keep_t[tv]) and np.array_equal(ref[tv], applied[tv]))))
     for side, b, pts_lat, dropped, same_as_f7 in results:
         if dropped.any():
             lats_b = np.concatenate([np.asarray(x).ravel() for x in (b[1].side1, b[1].side2, b[1].side3, b[1].side4)])
@@ -159,21 +356,24 @@ def _window_diagnosis(src, tgt, radius, d, sv, tv):
     return True, None, 0, keep_src, ("source" if keep_src is not None else None)
 
 
-def check(ctx, src, tgt, radius, desc):
+def check(ctx, src, tgt, radius, desc, segs=None, with_nprocs=True, types=None, reuse=True, light=False):
+    """segs / with_nprocs / types / reuse / light: the families of big geometries pass a short list of segment counts and, in the quick tier, leave
+    the worker-process combination, two of the four resample types, the reuse of unreduced neighbour info and (light) all but the reduced +
+    most-segmented combination of the weighted types to the thorough tier (every other pair keeps the full lists)"""
     from pyresample import kd_tree
     slo, sla = kc.lonlats(src)
     tlo, tla = kc.lonlats(tgt)
-    d, sv, tv = kc.dist_matrix(slo.ravel(), sla.ravel(), tlo.ravel(), tla.ravel())
-    n_src, n_tgt = d.shape[1], d.shape[0]
+    n_src, n_tgt = int(slo.size), int(tlo.size)
     k = ctx.rng.choice([2, 4, 8])
-    if _ties(d, radius, k):
+    tie, needed_src, needed_tgt, sv, tv = _brute_force_scan(slo.ravel(), sla.ravel(), tlo.ravel(), tla.ravel(), radius, k)
+    if tie:
         ctx.count("skipped.tie")
         return
     rows = tgt.shape[0]
     inp0 = {"pair": desc, "n_src": int(n_src), "n_tgt": int(n_tgt), "radius": float(radius)}
     geo = {"source": kc.describe(src), "target": kc.describe(tgt)}
     try:
-        sound, cause, n_dropped, keep, side = _window_diagnosis(src, tgt, radius, d, sv, tv)
+        sound, cause, n_dropped, keep, side = _window_diagnosis(src, tgt, radius, needed_src, needed_tgt, sv, tv)
     except Exception as e:  # noqa: data_reduce itself raised; the combos below will report it
         sound, cause, n_dropped, keep, side = True, None, 0, None, None
         ctx.count("window.raises")
@@ -190,8 +390,11 @@ def check(ctx, src, tgt, radius, desc):
         # integer data with a fill value that is not representable in the data's dtype
         "custom_int": lambda **kw: kd_tree.resample_custom(src, ids.astype(np.int32), tgt, radius, wf, neighbours=k, epsilon=0, fill_value=-999.5, **kw),
     }
-    segs = sorted(set([1, 2, 3, rows, rows + 3]))
+    segs = sorted(set([1, 2, 3, rows, rows + 3])) if segs is None else sorted(set(segs))
+    plain = {}
     for tname, call in calls.items():
+        if types is not None and tname not in types:
+            continue
         with warnings.catch_warnings():
             warnings.simplefilter("ignore")
             try:
@@ -199,8 +402,11 @@ def check(ctx, src, tgt, radius, desc):
             except Exception as e:  # noqa
                 ctx.fail("kd_tree", f"plain call raised {type(e).__name__}: {e}", {**inp0, "type": tname}, size=n_src + n_tgt)
                 continue
+        plain[tname] = base
         combos = [(rd, sg, 1) for rd in (False, True) for sg in segs if not (rd is False and sg == 1)]
-        if tname == "nn" or not ctx.quick:
+        if light and tname != "nn":
+            combos = [(True, segs[-1], 1)]
+        if (tname == "nn" or not ctx.quick) and with_nprocs:
             combos += [(ctx.rng.choice([False, True]), ctx.rng.choice(segs), 2)]
             if desc.startswith("special pm180"):
                 combos += [(False, 1, 2)]
@@ -222,8 +428,9 @@ def check(ctx, src, tgt, radius, desc):
                     tags = {"cause": cause}
                     site = "data_reduce.get_valid_index_from_lonlat_boundaries"
                     what = (f"reduce_data=True changes the result: the boundary window drops {n_dropped} {side} location(s) lying within the "
-                            f"radius (they pass the latitude window and fail the longitude window"
-                            + ("" if cause == "lon_window" else "; the window is NOT the known one of finding F7") + ")" if cause.startswith("lon_window") else
+                            f"radius (they pass the latitude window of the geometry's outline and fail the longitude window"
+                            + ("" if cause == "lon_window" else "; the reduction the library applies is NOT the known window of finding F7 evaluated on "
+                               "every pixel centre of the four sides of the outline") + ")" if cause.startswith("lon_window") else
                             f"reduce_data=True changes the result: the boundary window drops {n_dropped} needed {side} location(s) (latitude window)")
                 else:
                     tags = {"cause": "organisation", "reduce_data": rd, "segments_gt1": sg > 1, "nprocs_gt1": npr > 1}
@@ -235,7 +442,7 @@ def check(ctx, src, tgt, radius, desc):
     # ---- neighbour info computed once, reused on several datasets ---------------------------------
     with warnings.catch_warnings():
         warnings.simplefilter("ignore")
-        for neighbours, rtype in ((1, "nn"), (k, "custom")):
+        for neighbours, rtype in ((1, "nn"), (k, "custom")) if reuse else ():
             info = kd_tree.get_neighbour_info(src, tgt, radius, neighbours=neighbours, epsilon=0, reduce_data=False, segments=1)
             snap = [np.array(a, copy=True) for a in info]
             for rep in range(3):
@@ -254,6 +461,29 @@ def check(ctx, src, tgt, radius, desc):
                              {**inp0, "type": rtype, "reuse": rep + 1}, tags={"cause": "info-mutated"}, size=n_src + n_tgt)
                     break
             ctx.case("info_reuse", (desc, rtype), nontrivial=True)
+    # ---- the split interface with the search itself reduced / segmented: one more way of organising the same work -----------------------
+    with warnings.catch_warnings():
+        warnings.simplefilter("ignore")
+        sg = ctx.rng.choice(segs)
+        inp = {**inp0, "type": "nn", "reduce_data": True, "segments": sg, "nprocs": 1, "split": True}
+        try:
+            info = kd_tree.get_neighbour_info(src, tgt, radius, neighbours=1, epsilon=0, reduce_data=True, segments=sg)
+            got = kd_tree.get_sample_from_neighbour_info("nn", tgt.shape, ids, info[0], info[1], info[2], fill_value=None)
+            one = plain["nn"] if "nn" in plain else kd_tree.resample_nearest(src, ids, tgt, radius, epsilon=0, fill_value=None, reduce_data=False, segments=1)
+        except Exception as e:  # noqa
+            got = one = None
+            ctx.fail("kd_tree", f"raised {type(e).__name__}: {e} (get_neighbour_info with reduce_data=True + get_sample_from_neighbour_info)", {**inp, **geo},
+                     tags={"cause": "raises"}, size=n_src + n_tgt)
+        if got is not None and not _same(one, got):
+            if not sound:
+                tags, site = {"cause": cause}, "data_reduce.get_valid_index_from_lonlat_boundaries"
+                what = (f"get_neighbour_info(reduce_data=True) + get_sample_from_neighbour_info differs from the plain one-shot call: the boundary window drops "
+                        f"{n_dropped} needed {side} location(s)" + ("" if cause != "lon_window_changed" else "; the reduction the library applies is NOT the known window of finding F7"))
+            else:
+                tags, site = {"cause": "organisation", "reduce_data": True, "segments_gt1": sg > 1, "nprocs_gt1": False}, "kd_tree.get_neighbour_info"
+                what = "get_neighbour_info(reduce_data=True) + get_sample_from_neighbour_info differs from the plain single-segment, unreduced one-shot call"
+            ctx.fail(site, what, {**inp, **geo}, tags=tags, size=n_src + n_tgt)
+        ctx.case("info_reduced", (desc, sg), nontrivial=(keep is not None and not keep.all()) or sg > 1)
     # ---- model: the reduced validity mask -----------------------------------------------------------
     if ctx.M and keep is not None and side == "source":
         from pyresample.kd_tree import _get_valid_input_index
@@ -285,3 +515,10 @@ def run(ctx):
             continue
         check(ctx, src, tgt, radius, desc)
         done += 1
+    few = ("nn", "gauss") if ctx.quick else None
+    for src, tgt, radius, desc, segs in _big_target_pairs(ctx):
+        check(ctx, src, tgt, radius, desc, segs=segs, with_nprocs=not ctx.quick, types=few, reuse=not ctx.quick, light=ctx.quick)
+        ctx.count("pairs.big_target")
+    for src, tgt, radius, desc in _geos_source_pairs(ctx):
+        check(ctx, src, tgt, radius, desc, segs=[1, 3, tgt.shape[0]], with_nprocs=not ctx.quick, types=few, reuse=not ctx.quick, light=ctx.quick)
+        ctx.count("pairs.geos_source")
